@@ -424,6 +424,9 @@ func check(c Case) *vfrun.Failure {
 		_ = os.MkdirAll(filepath.Join(dir, sub), 0o755)
 		_ = os.WriteFile(filepath.Join(dir, sub, sub+".go"), []byte("package "+sub+"\n\n// Wrap is a helper of the user's own package.\nfunc Wrap(s string) string { return s }\n"), 0o644)
 	}
+	// a package meant to be dot-imported: its only exported name cannot collide with anything else
+	_ = os.MkdirAll(filepath.Join(dir, "dotutil"), 0o755)
+	_ = os.WriteFile(filepath.Join(dir, "dotutil", "dotutil.go"), []byte("package dotutil\n\n// DotWrap is used unqualified through a dot import.\nfunc DotWrap(s string) string { return s }\n"), 0o644)
 	writeSchema := func(m SchemaModel) {
 		old, _ := filepath.Glob(filepath.Join(dir, "*.graphqls"))
 		for _, f := range old {
@@ -652,6 +655,7 @@ var importUses = []struct{ imp, stmt string }{
 	{"u PKG/util", "_ = u.Wrap(\"x\")"},
 	{"PKG/errors", "_ = errors.Wrap(\"x\")"},
 	{"os", "_ = os.Getpid()"},
+	{". PKG/dotutil", "_ = DotWrap(\"d\")"},
 }
 
 func genBody(t *rapid.T, n int, allowReservedImport bool) (string, []string) {
@@ -669,7 +673,7 @@ func genBody(t *rapid.T, n int, allowReservedImport bool) (string, []string) {
 	if rapid.Bool().Draw(t, "useimport") {
 		pool := importUses
 		if !allowReservedImport {
-			pool = append(append([]struct{ imp, stmt string }{}, importUses[:3]...), importUses[4])
+			pool = append(append([]struct{ imp, stmt string }{}, importUses[:3]...), importUses[4], importUses[5])
 		}
 		u := pool[rapid.IntRange(0, len(pool)-1).Draw(t, "import")]
 		parts = append(parts, u.stmt)
